@@ -20,7 +20,6 @@ Growth:  (measured by the harness on spec-generated texts, see DESIGN §8) every
 import hashlib
 import json
 import math
-import multiprocessing
 import os
 import random
 import time
@@ -162,22 +161,17 @@ def execute(ctx, plan, tplmod=None):
     traces = {}
     crashes, hangs, structured = [], [], set()
     nparse = 0
-    pool = multiprocessing.get_context("fork").Pool(ctx.ncpu)
-    try:
-        for tr, cr, hg, st, n in pool.imap_unordered(_parse_worker, jobs):
-            for k, (cnt, sample) in tr.items():
-                t = traces.get(k)
-                if t is None:
-                    traces[k] = [cnt, sample]
-                else:
-                    t[0] += cnt
-            crashes += cr
-            hangs += hg
-            structured.update(st)
-            nparse += n
-    finally:
-        pool.close()
-        pool.join()
+    for tr, cr, hg, st, n in W.pmap(ctx, _parse_worker, jobs):
+        for k, (cnt, sample) in tr.items():
+            t = traces.get(k)
+            if t is None:
+                traces[k] = [cnt, sample]
+            else:
+                t[0] += cnt
+        crashes += cr
+        hangs += hg
+        structured.update(st)
+        nparse += n
     return traces, crashes, hangs, structured, nparse
 
 
@@ -285,14 +279,9 @@ def _pump_worker(args):
 
 def pump_all(ctx, items, lang):
     jobs = [(i, lang, ch, ctx.scratch) for i, ch in enumerate(chunks(items, ctx.ncpu * 4)) if ch]
-    pool = multiprocessing.get_context("fork").Pool(ctx.ncpu)
     out = []
-    try:
-        for r in pool.imap_unordered(_pump_worker, jobs):
-            out += r
-    finally:
-        pool.close()
-        pool.join()
+    for r in W.pmap(ctx, _pump_worker, jobs):
+        out += r
     return out
 
 
@@ -319,6 +308,12 @@ def run(ctx):
     if not (nv.kind == "invariant" and nv.name == "Total"):
         ctx.machinery("non-vacuity: a raising stage did not violate Total (%s %s)" % (nv.kind, nv.name))
     # ---- the input space
+    rc = tlc.run(ctx, "WikiTokens", GEN_CFG % {"alpha": "core", "k": 2, "emit": 9, "laws": "CounterIsBalance AlphabetsNested"},
+                 name="gen-cov", deadlock=False, coverage=True, timeout=300)
+    gcov = W.coverage_of(rc)
+    if not rc.ok or gcov.get("Append1", [0, 0])[1] == 0:
+        ctx.machinery("WikiTokens: action Append1 (Extend) never taken on the coverage configuration")
+    cov["WikiTokens.Append1"] = gcov["Append1"]
     gens = [("full", 2)] + ([] if quick else [("structural", 3)])
     sims = [(150, 10), (150, 30), (100, 60)] if quick else [(2000, 10), (2000, 30), (1000, 60)]
     cases = []             # (atoms, net, peak, group)
